@@ -45,6 +45,8 @@ class RecipeRun:
     def __init__(self, rep, subs, known=None, profile=None):
         self.rep = rep
         self.bench = Bench(rep, subs, known=known, cache_policy=(profile or {}).get('cache_policy', 'never'), obs=False)
+        from . import oracle_instr
+        oracle_instr.install(self.bench)
         self.W = self.bench.world
         self.known = known
         self.violations = self.bench.violations
